@@ -49,7 +49,7 @@ def add_registers_everything(U):
 @unit("C16", covers=[(ANA, "Analysis.add"), (ANA, "Analysis.create_xref"), (ANA, "Analysis._create_xref"), (ANA, "Analysis._resolve_method")],
       params=S.PARAMS, level="bounded", note=S.NOTE)
 def split_and_order_independent(U, chunk):
-    g = U.given or {"split": 1, "order": 1, "a": 3, "b": 25}
+    g = U.given or {"split": 1, "order": 1, "a": 3, "b": 31}
     U.drawn.update(g)
     ref = U.call(S.build, U, g, 0, 0)
     got = U.call(S.build, U, g)
